@@ -53,6 +53,9 @@ structure Cli (μ ρ : Type) where
   sent : ρ                  -- `retryStream.sent`
   reqs : List ρ
   reach : Bool              -- transport: does a stream opened under a cancelled context reach the handler?
+  cancelIs : Bool           -- transport: does the current stream report the caller's cancellation with an
+                            -- error for which `errors.Is(err, context.Canceled)` holds (bare or wrapped
+                            -- `ctx.Err()`), rather than with a gRPC status error?
   deriving Repr
 
 inductive Recv (μ ρ : Type) where
@@ -72,14 +75,18 @@ def attempt {μ ρ} : Nat → ErrClass → Cli μ ρ → Recv μ ρ
       | [] => if s.fin = .hang then .fail .blocked c' else attempt fuel (endErr s.fin) c'
 
 /-- `RecvMsg` once the caller's context is cancelled (before the call, or while the call is blocked
-on a silent stream).  The current stream fails with a gRPC status error, which is NOT
-`context.Canceled` for `errors.Is`, so a watch stream does enter `backoff.Retry`: the operation runs
-once — `newStream()` under the cancelled context, which reaches the server handler iff `c.reach` —
-and fails; `NextBackOff` then sees the done context and returns Stop, and `ctx.Err()` is returned. -/
+on a silent stream).  The current stream's `RecvMsg` fails.  The interceptor's test is
+`errors.Is(err, context.Canceled)` — keyed on "the caller cancelled", not on the error's identity:
+* if the error is (or wraps) `context.Canceled` (`c.cancelIs`), it is returned at once: no retry;
+* a real gRPC stream reports a status error instead, for which `errors.Is` is false, so a watch stream
+  does enter `backoff.Retry`: the operation runs once — `newStream()` under the cancelled context,
+  which reaches the server handler iff `c.reach` — and fails; `NextBackOff` then sees the done context
+  and returns Stop, and `ctx.Err()` is returned. -/
 def recvCancelled {μ ρ} (watch : Bool) (c : Cli μ ρ) : Recv μ ρ :=
   if watch then
-    .fail .ctxCanceled (if c.reach then { c with reqs := c.reqs ++ [c.sent] } else c)
-  else .fail .rpcCanceled c
+    if c.cancelIs then .fail .ctxCanceled c
+    else .fail .ctxCanceled (if c.reach then { c with reqs := c.reqs ++ [c.sent] } else c)
+  else .fail (if c.cancelIs then .ctxCanceled else .rpcCanceled) c
 
 /-- `RecvMsg` of the stream returned by `NewStreamRetry` (`watch` = method is in `RPCNeedRetry`;
 otherwise the raw gRPC stream is returned and nothing is ever re-opened) -/
@@ -110,10 +117,10 @@ def recvLoop {μ ρ} (watch : Bool) (max : Nat) : Option Nat → Nat → Cli μ 
       { r with delivered := m :: r.delivered }
 
 /-- the generated client stub: open the first stream, `SendMsg(req)` (remembered in `sent`) -/
-def start {μ ρ} (reach : Bool) (script : List (Stream μ)) (req : ρ) : Cli μ ρ :=
+def start {μ ρ} (reach cancelIs : Bool) (script : List (Stream μ)) (req : ρ) : Cli μ ρ :=
   match script with
-  | [] => { cur := [], curEnd := .err, rest := [], sent := req, reqs := [req], reach := reach }
-  | s :: r => { cur := s.msgs, curEnd := s.fin, rest := r, sent := req, reqs := [req], reach := reach }
+  | [] => { cur := [], curEnd := .err, rest := [], sent := req, reqs := [req], reach := reach, cancelIs := cancelIs }
+  | s :: r => { cur := s.msgs, curEnd := s.fin, rest := r, sent := req, reqs := [req], reach := reach, cancelIs := cancelIs }
 
 def totalMsgs {μ} (script : List (Stream μ)) : Nat := (script.map (·.msgs.length)).sum
 
@@ -125,11 +132,11 @@ def cancelWhenBlocked {μ ρ} (watch : Bool) (r : Run μ ρ) : Run μ ρ :=
     | .msg _ _ => r
   else r
 
-/-- a whole call.  `reach`: transport parameter (see `Cli.reach`); `cancelAfter`: the caller cancels
+/-- a whole call.  `reach`, `cancelIs`: transport parameters (see `Cli`); `cancelAfter`: the caller cancels
 after that many messages; `cancelBlocked`: the caller cancels once `Recv` blocks. -/
-def runStream {μ ρ} (reach watch : Bool) (max : Nat) (cancelAfter : Option Nat) (cancelBlocked : Bool)
+def runStream {μ ρ} (reach cancelIs watch : Bool) (max : Nat) (cancelAfter : Option Nat) (cancelBlocked : Bool)
     (script : List (Stream μ)) (req : ρ) : Run μ ρ :=
-  let r := recvLoop watch max cancelAfter (totalMsgs script + 2) (start reach script req)
+  let r := recvLoop watch max cancelAfter (totalMsgs script + 2) (start reach cancelIs script req)
   if cancelBlocked then cancelWhenBlocked watch r else r
 
 /-- `NewUnaryRetry`: `backoff.Retry(invoker, WithMaxRetries(…, Max))`; returns (attempts made, success).
